@@ -118,6 +118,19 @@ func earCase(c *vlib.Case, rigid bool, large bool) {
 			loop[x], loop[y] = loop[y], loop[x]
 		}
 	}
+	if !rigid && !large && R <= 256 && rng.Intn(6) == 0 {
+		k := uint(4 + rng.Intn(8))
+		alongX := rng.Intn(2) == 0
+		for j := range loop {
+			if alongX {
+				loop[j].X <<= k
+			} else {
+				loop[j].Y <<= k
+			}
+		}
+		fam += fmt.Sprintf("*stretched(2^%d)", k)
+		c.Count("ear.stretched_polygons", 1)
+	}
 	reg, why := c14ref.Certify([][]P{loop})
 	if reg == nil {
 		c.Undecided("generator produced a non-simple polygon: " + why)
@@ -282,6 +295,23 @@ func drawRegion(c *vlib.Case, kind int, rigid bool, maxExtent int64, prefix stri
 			}
 		}
 		R = int64(w + h)
+	}
+	if !rigid && R <= 256 && rng.Intn(6) == 0 {
+		// the same region stretched along one axis by 2^4..2^11 (an exact integer map that keeps it
+		// simple): corners become needles, edges and diagonals meet at 1e-2..1e-5 rad
+		k := uint(4 + rng.Intn(8))
+		alongX := rng.Intn(2) == 0
+		for i := range loops {
+			for j := range loops[i] {
+				if alongX {
+					loops[i][j].X <<= k
+				} else {
+					loops[i][j].Y <<= k
+				}
+			}
+		}
+		fam += fmt.Sprintf("*stretched(2^%d)", k)
+		c.Count(prefix+".stretched_regions", 1)
 	}
 	if rigid {
 		// margin (DESIGN C14): no exactly straight vertices under a rounded
